@@ -74,6 +74,15 @@ CommitSeqs(i, n, nt) ==
   ELSE {<<[size |-> CommitSizes[i], tree |-> t, parents |-> ps]>> \o rest :
            t \in 1..nt, ps \in SubsetSeqs(i - 1), rest \in CommitSeqs(i + 1, n, nt)}
 
+\* parent lists in which the same commit may be named more than once (git stores such commits
+\* unchanged; every "parent" header counts for max_parent_count)
+DupSeqs(n) == SubsetSeqs(n) \cup {<<k, k>> : k \in 1..n} \cup {<<j, k, j>> : j \in 1..n, k \in 1..n}
+RECURSIVE CommitSeqsDup(_, _, _)
+CommitSeqsDup(i, n, nt) ==
+  IF i > n THEN {<<>>}
+  ELSE {<<[size |-> CommitSizes[i], tree |-> t, parents |-> ps]>> \o rest :
+           t \in 1..nt, ps \in DupSeqs(i - 1), rest \in CommitSeqsDup(i + 1, n, nt)}
+
 RECURSIVE TagSeqs(_, _)
 TagSeqs(i, n) ==
   IF i > n THEN {<<>>}
@@ -112,6 +121,11 @@ FamilyInputs ==
             g \in {[blobs |-> BlobSizes,
                     trees |-> << <<>>, <<Ent("file", 1, 1)>> >>,
                     commits |-> cs, tags |-> <<>>] : cs \in CommitSeqs(1, NCommit, 2)}}
+    [] Family = "CommitsDup" ->
+         {<<g, HeadRoots(g)>> :
+            g \in {[blobs |-> BlobSizes,
+                    trees |-> << <<Ent("file", 1, 1)>> >>,
+                    commits |-> cs, tags |-> <<>>] : cs \in CommitSeqsDup(1, NCommit, 1)}}
     [] Family = "Tags" ->
          {<<g, HeadRoots(g)>> :
             g \in {[blobs |-> BlobSizes,
